@@ -7,10 +7,10 @@ Open Scope N_scope.
 
 Inductive obs := OBad | ONo | OSel (l : list N) | OOther.
 
-Record case := mkCase { c_id : nat; c_uid : bool; c_snap : list msgdata; c_keys : list key; c_obs : obs }.
+Record case := mkCase { c_id : nat; c_uid : bool; c_cs : charset; c_snap : list msgdata; c_keys : list key; c_obs : obs }.
 
 Definition model_obs (c : case) : obs :=
-  match search (c_uid c) (c_keys c) (c_snap c) with
+  match search (c_cs c) (c_uid c) (c_keys c) (c_snap c) with
   | RBad => OBad | RNo => ONo | ROk l => OSel l end.
 
 Definition obs_eqb (a b : obs) : bool :=
